@@ -23,6 +23,7 @@ checked by the dirty-vs-clean differential stream).
 import Reader.Frame
 import Side.Pool
 import Lemmas.Message
+import Props.C11
 open GoStd Sip Reader Lemmas
 
 namespace Props.C10
@@ -45,6 +46,28 @@ theorem C10_stale_invisible_fresh (cm : List (Bytes × Bytes)) (d stale : Bytes)
     udpParse cm (d ++ stale) d.length = udpParse cm d d.length := by
   have := C10_stale_invisible cm d stale []
   simpa using this
+
+/-! ### the same for the reader the parse loop really builds (operational `bufio.Reader`, Reader/Bufio.lean)
+
+`startParseMessage` builds `bufio.NewReaderSize(bytes.NewBuffer(b[:n]), n)`: a reader of capacity `max n 16` over a
+source that delivers the datagram's `n` bytes (`Props.C11.fresh [buf.take n]`). `Props.C11.C11_bufio_udp` shows that
+`ParseMessage` on that reader is `udpParse`; so locality holds for the real mechanics too, not only for the
+logical-stream model. -/
+
+/-- the message decoded through the operational reader is a function of the datagram's own bytes -/
+theorem C10_bufio_local (cm : List (Bytes × Bytes)) (buf buf' : Bytes) (n : Nat)
+    (h : buf.take n = buf'.take n) :
+    (Bufio.parseMessage (max n 16) cm (Props.C11.fresh [buf.take n])).map (·.1)
+      = (Bufio.parseMessage (max n 16) cm (Props.C11.fresh [buf'.take n])).map (·.1) := by
+  rw [h]
+
+/-- stale bytes behind the datagram are invisible to the operational reader as well: it decodes what a fresh buffer
+holding exactly the datagram would give -/
+theorem C10_bufio_stale_invisible (cm : List (Bytes × Bytes)) (d stale : Bytes) :
+    (Bufio.parseMessage (max d.length 16) cm (Props.C11.fresh [(d ++ stale).take d.length])).map (·.1)
+      = udpParse cm d d.length := by
+  rw [Props.C11.C11_bufio_udp cm (d ++ stale) d.length]
+  exact C10_stale_invisible_fresh cm d stale
 
 /-- Everything decoded fits inside the datagram: headers and body together are shorter than the
 `n` bytes received (nothing can have been completed from bytes behind position `n`). -/
